@@ -215,6 +215,10 @@ class Unit:
             for n, fields in idx.structs.items():
                 if n not in self.fi.structs:
                     self.fi.structs[n] = fields; self.struct_src[n] = "trusted view declared in translate/x_fn.py"
+            # (b1315, additive) a view may also declare the enums of library types the code matches on
+            for n, vs in idx.enum_data.items():
+                if n not in self.fi.enums and n not in self.fi.enum_data:
+                    self.fi.enum_data[n] = vs; self.fi.enums[n] = None
             for n, vs in idx.enums.items():     # unit-variant enums of library types (e.g. atomic `Ordering`): b1012, round 9
                 self.fi.enums.setdefault(n, vs)
         for r in struct_files:      # struct declarations of other files, used as local structures
